@@ -4,7 +4,7 @@ import json, os, subprocess
 ROOT = os.path.dirname(os.path.dirname(os.path.abspath(__file__)))
 # property a fix is recorded under (first matching keyword in the commit subject)
 RULES = [
-    ("forward", "C03"), ("grammar: an identifier", "C03"), ("grammar: 'struct'", "C03"), ("user-defined function", "C06"), ("zip of sequences", "C06"), ("set_default", "C06"),
+    ("skip(n)", "C10"), ("time limit", "C10"), ("multinom", "C10"), ("sample(seq", "C10"), ("pow size pre-check", "C10"), ("pow with an exponent", "C10"), ("forward", "C03"), ("grammar: an identifier", "C03"), ("grammar: 'struct'", "C03"), ("user-defined function", "C06"), ("zip of sequences", "C06"), ("set_default", "C06"),
     ("merge sort", "C19"), ("hash of a set/mapping", "C19"), ("format of i64::MIN", "C14"),
     ("generator", "C16"), ("generators", "C16"),
     ("sequence", "C15"), ("range", "C15"), ("combination", "C15"), ("to_array", "C15"),
@@ -33,6 +33,11 @@ OPEN = [
      "what": "same defect as K-C01-01 seen through C03: a function declared between a `forward fn` and its implementation *inside a function body* keeps a lazily resolved reference; when it (or a closure calling it) is returned and called after that body has finished, the call panics instead of using the binding of its defining scope (top-level forward declarations were repaired, see the fixed entries)",
      "example": "fn outer()->()->(int){ forward fn b()->int; fn a()->int{ b() } fn b()->int{ 5 } a }\nlet r = outer()();",
      "why_not_fixed": "see K-C01-01"},
+    {"id": "K-C10-01", "property": "C10", "status": "open",
+     "sig": r"^no_return\|(num:(poisson|binomial|hypergeometric|negative_binomial|geometric)_distribution.*|(quantile|cdf|pmf)\(DiscreteDistribution, (float|int)\)->(int|float))$",
+     "what": "cdf / quantile of a discrete distribution with an astronomically large parameter (poisson_distribution(1.8e19).quantile(0.5)) does not return: every cdf evaluation runs statrs' incomplete gamma / beta iteration, whose number of steps grows with the parameter and is consulted against no limit",
+     "example": "let r0 = poisson_distribution(18446744073709551616.to_float()).quantile(0.5);",
+     "why_not_fixed": "the loop is inside the statrs dependency; bounding it needs either a parameter ceiling (a behaviour change for valid inputs) or a different algorithm for large parameters"},
     {"id": "K-C02-01", "property": "C02", "status": "open",
      "sig": r"^grammar:lt_gt_in_argument_list\|rejected$",
      "what": "`f(a < b, c > d)`: a bare name followed by `<` inside an argument / element list is parsed as a generic specialisation `a<b, c>` and the program is rejected with a syntax error (e.g. `if(x < y, y > 0, true)`); writing `(x < y)` works",
